@@ -75,28 +75,36 @@ CHECKS = {
         category="exploration", design_ref="DESIGN.md §5 C14",
         text=("1-4 generated subruns with own chunk layouts and gaps of 0 / 1 / 5000 / 2e9 ns, run metadata and "
               "define_run on SimFS, chains whose allow_superrun level starts at depth 0-2, write_superruns "
-              "on/off, rechunking across subrun borders, both processors, reload from a fresh context and "
-              "redefinition. Oracle: ordered concatenation of per-subrun oracles; chunk.subruns spans tile every "
-              "subrun exactly once, lie inside their chunk and contain the rows they claim; redefinition makes "
-              "old superrun data unavailable and returns the new concatenation."),
+              "on/off, rechunking across subrun borders, both processors, chunk-wise re-read from a fresh context, "
+              "time-range reads of the stored superrun starting / ending exactly on subrun borders, redefinition "
+              "through the making or another context followed by re-use of every earlier context. Oracle: ordered "
+              "concatenation of per-subrun oracles; chunk.subruns spans (yielded, stored and range-read chunks) tile "
+              "every subrun exactly once, lie inside their chunk and contain the rows they claim; redefinition makes "
+              "old superrun data unavailable for every context and returns the new concatenation."),
         note=PIPE_NOTE),
     "C15": dict(
         category="exploration", design_ref="DESIGN.md §5 C15",
         text=("multi_run's pool is a simulated executor; 2-8 runs, 1-8 workers, one or several same-kind targets, "
-              "cold / warm plugin cache, with and without storage, get_array / get_df / make, one run made to "
-              "fail with and without ignore_errors. Worker threads share ONE Context and are pre-empted at line "
-              "granularity inside strax/context.py via sys.settrace with seeded probability. Oracle: per-run "
-              "oracles in run-id order with the run_id column; the failing run's own exception or its omission; "
-              "no exception from Context bookkeeping; no temporary plugin left."),
+              "cold / warm plugin cache, plugins with declared or inferred dtype / data kind, with and without "
+              "storage, get_array / get_df / make, 1..n-1 runs made to fail with and without ignore_errors. Worker "
+              "threads share ONE Context and are pre-empted at line granularity inside strax/context.py via "
+              "sys.settrace with seeded probability; the iteration order of strax's sets of data-type names and of "
+              "the futures returned by wait() is seeded too. Oracle: per-run oracles in run-id order with the "
+              "run_id column; a failing run's own exception or the omission of exactly the failing runs; no "
+              "exception from Context bookkeeping; no temporary plugin left."),
         note=PIPE_NOTE + " Line-level pre-emption only inside strax/context.py and multi_run."),
     "C16": dict(
         category="exploration", design_ref="DESIGN.md §5 C16",
         text=("Seeded transformations of stored data on SimFS: strax.rechunker (any compressor, target size, "
               "serial / thread / process-stub, in place via TemporaryDirectory+move or to a new location), "
-              "copy_to_frontend with recompression and rechunking, rechunk_on_load under both processors and a "
-              "pool, per-chunk make over random groupings + merge_per_chunk_storage. Oracle: same rows, C03 "
-              "metadata consistency for the destination incl. new compressor / target size, source digest "
-              "unchanged unless replaced, no temporary leftovers."),
+              "copy_to_frontend with recompression and rechunking to one chosen or to all of 1-3 further "
+              "frontends (some already holding the data), rechunk_on_load under both processors and a "
+              "pool, per-chunk make over random groupings + merge_per_chunk_storage. A third of the rechunker and "
+              "a quarter of the copy runs get one injected EIO / ENOSPC / short write on the n-th makedirs / open / "
+              "write / rename of the new copy, or a failing read of the source. Oracle: same rows, C03 "
+              "metadata consistency for every destination incl. new compressor / target size, source digest "
+              "unchanged unless replaced, no temporary leftovers; under a fault a normal return still has to pass "
+              "all of that, and a raised error has to leave the source bit-identical."),
         note="Trusted: SimFS incl. TemporaryDirectory / move; process pools are a pickle-boundary stub on sim threads."),
     "C06": dict(
         category="exploration", design_ref="DESIGN.md §5 C06",
